@@ -11,6 +11,7 @@ from unyt.dimensions import temperature
 from unyt.exceptions import (
     InvalidUnitOperation,
     UnitInconsistencyError,
+    UnitOperationError,
     UnytError,
 )
 
@@ -738,8 +739,21 @@ def copyto(dst, src, *args, **kwargs):
 
 @implements(np.prod)
 def prod(a, *args, **kwargs):
+    where = kwargs.get("where", True)
+    count = None
+    if where is not True:
+        # only the selected elements are multiplied together
+        axis = args[0] if args else kwargs.get("axis")
+        counts = np.count_nonzero(np.broadcast_to(where, a.shape), axis=axis)
+        if np.ptp(counts) != 0 and not (
+            a.units.is_dimensionless and a.units.base_value == 1.0
+        ):
+            raise UnitOperationError(np.prod, a.units)
+        count = int(np.min(counts))
     res = np.prod._implementation(np.asarray(a), *args, **kwargs)
-    return res * a.units ** (a.size // res.size)
+    if count is None:
+        count = a.size // res.size
+    return res * a.units**count
 
 
 @implements(np.var)
